@@ -28,6 +28,11 @@ class VClock:
 
 
 class StepEvent:
+    """Stands in for the engine's exit event.  The engine loop's own `isopen` tests see "open" while the
+    iteration budget lasts; the budget is decremented at the END of each iteration (by a wrapper around the
+    loop's last call, `_loop_func`), so any further isopen test inside an iteration sees "open" as well.
+    Every other caller of isopen sees "open" until close()."""
+
     def __init__(self):
         self.budget = 0
         self.closed = False
@@ -37,10 +42,7 @@ class StepEvent:
             return True
         caller = sys._getframe(2).f_code.co_name  # is_set <- isopen <- caller
         if caller == "_thread_func":
-            if self.budget > 0:
-                self.budget -= 1
-                return False
-            return True
+            return self.budget <= 0
         return False
 
     def set(self):
@@ -151,6 +153,16 @@ class Engine:
         sock_obj._exit_event = self.ev
         sock_obj._last_send_time = net.clock() - 1.0
         self.iterations = 0
+        orig_loop_func = sock_obj._loop_func
+        ev = self.ev
+
+        def loop_func_then_count():
+            try:
+                return orig_loop_func()
+            finally:
+                ev.budget -= 1
+
+        sock_obj._loop_func = loop_func_then_count
 
     def step(self, n=1):
         self.ev.budget = n
